@@ -432,6 +432,8 @@ class ExprMixin(object):
             return [(Text(cat(self.to_doc(l), self.to_doc(r))), st)]
         if isinstance(op, ast.Add) and isinstance(l, Tup) and isinstance(r, Tup):
             return [(Tup(l.items + r.items), st)]
+        if isinstance(op, ast.Add) and isinstance(l, SeqV) and isinstance(r, SeqV) and l.elem == r.elem:
+            return [(SeqV(z3.Concat(l.z, r.z), l.elem), st)]        # tuples / lists of symbolic length: concatenation
         if isinstance(op, ast.Add) and isinstance(l, PyList) and isinstance(r, PyList):
             return [(st.new_cell(PyList(l.items + r.items)), st)]
         if isinstance(l, SymSet) and isinstance(r, SymSet) and isinstance(op, (ast.Sub, ast.BitOr, ast.BitAnd, ast.BitXor)):
@@ -2252,6 +2254,8 @@ class CallMixin(object):
         if isinstance(r, SymSet) and name == 'add':
             st.cells[recv.id] = SymSet(z3.Store(r.has, self.key_term(args[0], st), z3.BoolVal(True)), r.kty)
             return [(NONE, st)]
+        if isinstance(r, SymDict) and name == 'copy' and not args:
+            return [(st.new_cell(SymDict(r.has, r.get, r.kty, r.vty, order=r.order)), st)]       # a new dict with the same items
         if isinstance(r, SymDict) and name == 'update' and len(args) == 1:
             o = d[0]
             if isinstance(o, PyDict) and not o.d: return [(NONE, st)]
